@@ -277,10 +277,11 @@ def h_history(case):
         cachelab.STATE['events'] = []
         cachelab.STATE['seq'] = 0
     obs = []
+    shared = {} if case.get('shared') else None
     for r in case['reqs']:
         if r.get('clear'):
             cachelab.clear_cache_only()
-        o, _ = cachelab.do_request(L, reg['fam_of'], r)
+        o, _ = cachelab.do_request(L, reg['fam_of'], r, shared)
         obs.append(o)
     ev = cachelab.STATE['events']
     cachelab.STATE['events'] = None
